@@ -1,13 +1,1058 @@
 //go:build verif
 
+// Fake P4Runtime switch with P4Runtime write semantics (spec 9.1/12: entry identity = table + match + priority;
+// INSERT existing -> ALREADY_EXISTS; MODIFY/DELETE missing -> NOT_FOUND; a batch is applied update by update and a
+// failing batch returns status UNKNOWN with one p4.Error per update), meters/counters as MODIFY-only arrays, a validator
+// of every update against the served P4Info (C16), fault injection at the k-th Write, PacketOut recorder.
+// Usable directly as p4.P4RuntimeClient (bulk exploration) and behind a real gRPC server (full start-up path).
 package pfcpiface
 
-// placeholder until the fake P4Runtime switch is written
-type vP4Cfg struct{}
-type vP4Env struct{}
+import (
+	"context"
+	"fmt"
+	"io"
+	"math/big"
+	"net"
+	"os"
+	"path/filepath"
+	"sort"
+	"strings"
+	"sync"
 
-func newVP4Env(in *vInst, conf *Conf) *vP4Env { panic("UP4 harness not built yet") }
-func (e *vP4Env) close()                      {}
-func (e *vP4Env) nwrites() int                { return 0 }
-func (e *vP4Env) digest(rn *vRenamer) string  { return "" }
-func (e *vP4Env) takePacketOuts() [][]byte    { return nil }
+	set "github.com/deckarep/golang-set"
+	"github.com/golang/protobuf/proto"
+	p4cfg "github.com/p4lang/p4runtime/go/p4/config/v1"
+	p4 "github.com/p4lang/p4runtime/go/p4/v1"
+	"google.golang.org/genproto/googleapis/rpc/code"
+	spb "google.golang.org/genproto/googleapis/rpc/status"
+	"google.golang.org/grpc"
+	"google.golang.org/grpc/codes"
+	"google.golang.org/grpc/status"
+	"google.golang.org/protobuf/types/known/anypb"
+)
+
+type fpMatch struct {
+	Kind      string // exact, lpm, ternary, range
+	Val, Mask uint64 // mask: ternary mask / range high
+	Plen      int32
+}
+
+type fpEntry struct {
+	Table  string
+	Prio   int32
+	Match  map[string]fpMatch
+	Action string
+	Params map[string]uint64
+	Epoch  int
+	key    string
+}
+
+func (e *fpEntry) String() string {
+	var ms, ps []string
+	for k, m := range e.Match {
+		ms = append(ms, fmt.Sprintf("%s=%s:%x/%x/%d", k, m.Kind, m.Val, m.Mask, m.Plen))
+	}
+	for k, v := range e.Params {
+		ps = append(ps, fmt.Sprintf("%s=%x", k, v))
+	}
+	sort.Strings(ms)
+	sort.Strings(ps)
+	return fmt.Sprintf("%s[%s]p%d -> %s(%s)", e.Table, strings.Join(ms, ","), e.Prio, e.Action, strings.Join(ps, ","))
+}
+
+type fpMeterCell struct {
+	Configured               bool
+	Cir, Cburst, Pir, Pburst int64
+	Epoch                    int
+}
+
+type fpFault struct {
+	Shape string // "transport" (not applied), "p4err" (not applied, per-update INTERNAL), "lost" (applied, response lost)
+}
+
+type fpWriteRec struct {
+	Idx     int
+	Updates []string
+	Err     string
+	Epoch   int
+}
+
+type fakeP4 struct {
+	mu        sync.Mutex
+	info      *p4cfg.P4Info
+	tblByID   map[uint32]*p4cfg.Table
+	actByID   map[uint32]*p4cfg.Action
+	meterByID map[uint32]*p4cfg.Meter
+	ctrByID   map[uint32]*p4cfg.Counter
+	tables    map[string]map[string]*fpEntry // table name -> key -> entry
+	meters    map[string]map[int64]*fpMeterCell
+	ctrWrites map[string]map[int64]int
+	log       []fpWriteRec
+	nwrite    int
+	epoch     int
+	faults    map[int]fpFault
+	deadAfter int
+	pktOuts   [][]byte
+	invalid   []string // C16: validation failures "class|detail"
+	nupdates  int
+	streams   []p4.P4Runtime_StreamChannelServer
+}
+
+var (
+	fpInfoOnce sync.Once
+	fpInfoBase *p4cfg.P4Info
+)
+
+func fpLoadInfo() *p4cfg.P4Info {
+	fpInfoOnce.Do(func() {
+		b, err := os.ReadFile(filepath.Join(vEnv.Repo, "conf", "p4", "bin", "p4info.txt"))
+		if err != nil {
+			panic("VERIF-INFRA: cannot read p4info: " + err.Error())
+		}
+		fpInfoBase = &p4cfg.P4Info{}
+		if err := proto.UnmarshalText(string(b), fpInfoBase); err != nil {
+			panic("VERIF-INFRA: cannot parse p4info: " + err.Error())
+		}
+	})
+	return fpInfoBase
+}
+
+// newFakeP4 serves the shipped P4Info, optionally with reduced counter / meter array sizes (so that pools can be
+// exhausted by a short history).
+func newFakeP4(counterSize, meterSize int64) *fakeP4 {
+	info := proto.Clone(fpLoadInfo()).(*p4cfg.P4Info)
+	for _, c := range info.Counters {
+		if counterSize > 0 {
+			c.Size = counterSize
+		}
+	}
+	for _, m := range info.Meters {
+		if meterSize > 0 && (strings.HasSuffix(m.Preamble.Name, "app_meter") || strings.HasSuffix(m.Preamble.Name, "session_meter")) {
+			m.Size = meterSize
+		}
+	}
+	f := &fakeP4{info: info, tblByID: map[uint32]*p4cfg.Table{}, actByID: map[uint32]*p4cfg.Action{}, meterByID: map[uint32]*p4cfg.Meter{},
+		ctrByID: map[uint32]*p4cfg.Counter{}, tables: map[string]map[string]*fpEntry{}, meters: map[string]map[int64]*fpMeterCell{},
+		ctrWrites: map[string]map[int64]int{}, faults: map[int]fpFault{}, deadAfter: -1}
+	for _, t := range info.Tables {
+		f.tblByID[t.Preamble.Id] = t
+		f.tables[fpShort(t.Preamble.Name)] = map[string]*fpEntry{}
+	}
+	for _, a := range info.Actions {
+		f.actByID[a.Preamble.Id] = a
+	}
+	for _, m := range info.Meters {
+		f.meterByID[m.Preamble.Id] = m
+		f.meters[fpShort(m.Preamble.Name)] = map[int64]*fpMeterCell{}
+	}
+	for _, c := range info.Counters {
+		f.ctrByID[c.Preamble.Id] = c
+		f.ctrWrites[fpShort(c.Preamble.Name)] = map[int64]int{}
+	}
+	return f
+}
+
+func fpShort(name string) string {
+	if i := strings.LastIndex(name, "."); i >= 0 {
+		return name[i+1:]
+	}
+	return name
+}
+
+func fpUint(b []byte) (uint64, bool) {
+	v := new(big.Int).SetBytes(b)
+	if !v.IsUint64() {
+		return 0, false
+	}
+	return v.Uint64(), true
+}
+
+func (f *fakeP4) bad(class, detail string) {
+	if len(f.invalid) < 200 {
+		f.invalid = append(f.invalid, class+"|"+detail)
+	}
+}
+
+func fits(b []byte, width int32) bool {
+	v := new(big.Int).SetBytes(b)
+	return v.BitLen() <= int(width)
+}
+
+// decode validates a table entry against the P4Info (C16) and returns its decoded form.
+func (f *fakeP4) decode(te *p4.TableEntry, needAction bool) (*fpEntry, bool) {
+	t := f.tblByID[te.TableId]
+	if t == nil {
+		f.bad("unknown-table", fmt.Sprint(te.TableId))
+		return nil, false
+	}
+	e := &fpEntry{Table: fpShort(t.Preamble.Name), Prio: te.Priority, Match: map[string]fpMatch{}, Params: map[string]uint64{}, Epoch: f.epoch}
+	needPrio := false
+	for _, mf := range t.MatchFields {
+		if mf.GetMatchType() == p4cfg.MatchField_TERNARY || mf.GetMatchType() == p4cfg.MatchField_RANGE {
+			needPrio = true
+		}
+	}
+	ok := true
+	seen := map[uint32]bool{}
+	for _, m := range te.Match {
+		var mf *p4cfg.MatchField
+		for _, x := range t.MatchFields {
+			if x.Id == m.FieldId {
+				mf = x
+			}
+		}
+		if mf == nil {
+			f.bad("field-not-in-table", fmt.Sprintf("%s field id %d", e.Table, m.FieldId))
+			ok = false
+			continue
+		}
+		if seen[m.FieldId] {
+			f.bad("field-twice", e.Table+"."+mf.Name)
+			ok = false
+		}
+		seen[m.FieldId] = true
+		var fm fpMatch
+		switch x := m.FieldMatchType.(type) {
+		case *p4.FieldMatch_Exact_:
+			fm.Kind = "exact"
+			if mf.GetMatchType() != p4cfg.MatchField_EXACT {
+				f.bad("match-kind", fmt.Sprintf("%s.%s written as exact, declared %v", e.Table, mf.Name, mf.GetMatchType()))
+				ok = false
+			}
+			if !fits(x.Exact.Value, mf.Bitwidth) {
+				f.bad("value-width", fmt.Sprintf("%s.%s value %x does not fit %d bits", e.Table, mf.Name, x.Exact.Value, mf.Bitwidth))
+				ok = false
+			}
+			fm.Val, _ = fpUint(x.Exact.Value)
+		case *p4.FieldMatch_Lpm:
+			fm.Kind = "lpm"
+			if mf.GetMatchType() != p4cfg.MatchField_LPM {
+				f.bad("match-kind", fmt.Sprintf("%s.%s written as lpm, declared %v", e.Table, mf.Name, mf.GetMatchType()))
+				ok = false
+			}
+			if !fits(x.Lpm.Value, mf.Bitwidth) {
+				f.bad("value-width", fmt.Sprintf("%s.%s value %x does not fit %d bits", e.Table, mf.Name, x.Lpm.Value, mf.Bitwidth))
+				ok = false
+			}
+			if x.Lpm.PrefixLen < 0 || x.Lpm.PrefixLen > mf.Bitwidth {
+				f.bad("lpm-prefix-len", fmt.Sprintf("%s.%s prefix length %d, width %d", e.Table, mf.Name, x.Lpm.PrefixLen, mf.Bitwidth))
+				ok = false
+			}
+			fm.Val, _ = fpUint(x.Lpm.Value)
+			fm.Plen = x.Lpm.PrefixLen
+		case *p4.FieldMatch_Ternary_:
+			fm.Kind = "ternary"
+			if mf.GetMatchType() != p4cfg.MatchField_TERNARY {
+				f.bad("match-kind", fmt.Sprintf("%s.%s written as ternary, declared %v", e.Table, mf.Name, mf.GetMatchType()))
+				ok = false
+			}
+			if !fits(x.Ternary.Value, mf.Bitwidth) || !fits(x.Ternary.Mask, mf.Bitwidth) {
+				f.bad("value-width", fmt.Sprintf("%s.%s ternary %x/%x does not fit %d bits", e.Table, mf.Name, x.Ternary.Value, x.Ternary.Mask, mf.Bitwidth))
+				ok = false
+			}
+			fm.Val, _ = fpUint(x.Ternary.Value)
+			fm.Mask, _ = fpUint(x.Ternary.Mask)
+		case *p4.FieldMatch_Range_:
+			fm.Kind = "range"
+			if mf.GetMatchType() != p4cfg.MatchField_RANGE {
+				f.bad("match-kind", fmt.Sprintf("%s.%s written as range, declared %v", e.Table, mf.Name, mf.GetMatchType()))
+				ok = false
+			}
+			if !fits(x.Range.Low, mf.Bitwidth) || !fits(x.Range.High, mf.Bitwidth) {
+				f.bad("value-width", fmt.Sprintf("%s.%s range %x-%x does not fit %d bits", e.Table, mf.Name, x.Range.Low, x.Range.High, mf.Bitwidth))
+				ok = false
+			}
+			fm.Val, _ = fpUint(x.Range.Low)
+			fm.Mask, _ = fpUint(x.Range.High)
+			if fm.Val > fm.Mask {
+				f.bad("range-inverted", fmt.Sprintf("%s.%s %d-%d", e.Table, mf.Name, fm.Val, fm.Mask))
+				ok = false
+			}
+		default:
+			f.bad("match-kind", fmt.Sprintf("%s.%s unsupported match encoding", e.Table, mf.Name))
+			ok = false
+		}
+		e.Match[mf.Name] = fm
+	}
+	if len(te.Match) > 0 || needAction {
+		for _, mf := range t.MatchFields {
+			if mf.GetMatchType() == p4cfg.MatchField_EXACT && !seen[mf.Id] {
+				f.bad("exact-field-missing", e.Table+"."+mf.Name)
+				ok = false
+			}
+		}
+		if needPrio && te.Priority <= 0 {
+			f.bad("priority-zero", fmt.Sprintf("%s has ternary/range fields but priority %d", e.Table, te.Priority))
+			ok = false
+		}
+		if !needPrio && te.Priority != 0 {
+			f.bad("priority-nonzero", fmt.Sprintf("%s has no ternary/range fields but priority %d", e.Table, te.Priority))
+			ok = false
+		}
+	}
+	if a := te.GetAction().GetAction(); a != nil {
+		act := f.actByID[a.ActionId]
+		allowed := false
+		for _, r := range t.ActionRefs {
+			if r.Id == a.ActionId {
+				allowed = true
+			}
+		}
+		if act == nil || !allowed {
+			f.bad("action-not-allowed", fmt.Sprintf("%s action id %d", e.Table, a.ActionId))
+			return e, false
+		}
+		e.Action = fpShort(act.Preamble.Name)
+		seenP := map[uint32]bool{}
+		for _, p := range a.Params {
+			var ap *p4cfg.Action_Param
+			for _, x := range act.Params {
+				if x.Id == p.ParamId {
+					ap = x
+				}
+			}
+			if ap == nil {
+				f.bad("param-unknown", fmt.Sprintf("%s.%s param id %d", e.Table, e.Action, p.ParamId))
+				ok = false
+				continue
+			}
+			if seenP[p.ParamId] {
+				f.bad("param-twice", e.Action+"."+ap.Name)
+				ok = false
+			}
+			seenP[p.ParamId] = true
+			if !fits(p.Value, ap.Bitwidth) {
+				f.bad("param-width", fmt.Sprintf("%s.%s value %x does not fit %d bits", e.Action, ap.Name, p.Value, ap.Bitwidth))
+				ok = false
+			}
+			e.Params[ap.Name], _ = fpUint(p.Value)
+		}
+		for _, x := range act.Params {
+			if !seenP[x.Id] {
+				f.bad("param-missing", e.Action+"."+x.Name)
+				ok = false
+			}
+		}
+	} else if needAction {
+		f.bad("no-action", e.Table)
+		ok = false
+	}
+	var ks []string
+	for k, m := range e.Match {
+		ks = append(ks, fmt.Sprintf("%s=%s:%x/%x/%d", k, m.Kind, m.Val, m.Mask, m.Plen))
+	}
+	sort.Strings(ks)
+	e.key = strings.Join(ks, ",") + fmt.Sprintf("|p%d", e.Prio)
+	return e, ok
+}
+
+func updSummary(u *p4.Update) string {
+	if u == nil || u.Entity == nil {
+		return "nil-update"
+	}
+	switch x := u.Entity.Entity.(type) {
+	case *p4.Entity_TableEntry:
+		return fmt.Sprintf("%v table %d", u.Type, x.TableEntry.TableId)
+	case *p4.Entity_MeterEntry:
+		return fmt.Sprintf("%v meter %d[%d]", u.Type, x.MeterEntry.MeterId, x.MeterEntry.GetIndex().GetIndex())
+	case *p4.Entity_CounterEntry:
+		return fmt.Sprintf("%v counter %d[%d]", u.Type, x.CounterEntry.CounterId, x.CounterEntry.GetIndex().GetIndex())
+	}
+	return "other"
+}
+
+// write applies one WriteRequest.
+func (f *fakeP4) write(req *p4.WriteRequest) error {
+	f.mu.Lock()
+	defer f.mu.Unlock()
+	idx := f.nwrite
+	f.nwrite++
+	rec := fpWriteRec{Idx: idx, Epoch: f.epoch}
+	for _, u := range req.Updates {
+		rec.Updates = append(rec.Updates, updSummary(u))
+	}
+	defer func() { f.log = append(f.log, rec) }()
+	if f.deadAfter >= 0 && idx >= f.deadAfter {
+		rec.Err = "dead"
+		return status.Error(codes.Unavailable, "agent is dead")
+	}
+	fault, hasFault := f.faults[idx]
+	if hasFault && fault.Shape == "transport" {
+		rec.Err = "injected transport error"
+		return status.Error(codes.Unavailable, "injected transport error")
+	}
+	if hasFault && fault.Shape == "p4err" {
+		rec.Err = "injected p4 error"
+		st := status.New(codes.Unknown, "injected write error")
+		var details []proto.Message
+		for range req.Updates {
+			details = append(details, &p4.Error{CanonicalCode: int32(codes.Internal), Message: "injected"})
+		}
+		return fpStatusWithDetails(st, details)
+	}
+	errs := make([]*p4.Error, len(req.Updates))
+	failed := false
+	for i, u := range req.Updates {
+		f.nupdates++
+		c := f.applyUpdate(u)
+		errs[i] = &p4.Error{CanonicalCode: int32(c)}
+		if c != codes.OK {
+			failed = true
+			errs[i].Message = c.String()
+		}
+	}
+	if hasFault && fault.Shape == "lost" {
+		rec.Err = "applied, response lost"
+		return status.Error(codes.Unavailable, "injected: response lost")
+	}
+	if failed {
+		var details []proto.Message
+		var cs []string
+		for _, e := range errs {
+			details = append(details, e)
+			cs = append(cs, codes.Code(e.CanonicalCode).String())
+		}
+		rec.Err = strings.Join(cs, ",")
+		return fpStatusWithDetails(status.New(codes.Unknown, "write failed"), details)
+	}
+	return nil
+}
+
+func fpStatusWithDetails(st *status.Status, details []proto.Message) error {
+	p := st.Proto()
+	for _, d := range details {
+		a, err := fpAny(d)
+		if err != nil {
+			panic(err)
+		}
+		p.Details = append(p.Details, a)
+	}
+	return status.FromProto(p).Err()
+}
+
+func fpAny(m proto.Message) (*anypb.Any, error) { return anypb.New(proto.MessageV2(m)) }
+
+func (f *fakeP4) applyUpdate(u *p4.Update) codes.Code {
+	if u == nil || u.Entity == nil {
+		f.bad("nil-update", "a WriteRequest carries an empty update")
+		return codes.InvalidArgument
+	}
+	switch x := u.Entity.Entity.(type) {
+	case *p4.Entity_TableEntry:
+		e, ok := f.decode(x.TableEntry, u.Type != p4.Update_DELETE)
+		if e == nil {
+			return codes.InvalidArgument
+		}
+		if !ok {
+			return codes.InvalidArgument
+		}
+		tbl := f.tables[e.Table]
+		_, exists := tbl[e.key]
+		switch u.Type {
+		case p4.Update_INSERT:
+			if exists {
+				return codes.AlreadyExists
+			}
+			tbl[e.key] = e
+		case p4.Update_MODIFY:
+			if !exists {
+				return codes.NotFound
+			}
+			tbl[e.key] = e
+		case p4.Update_DELETE:
+			if !exists {
+				return codes.NotFound
+			}
+			delete(tbl, e.key)
+		default:
+			f.bad("update-type", fmt.Sprint(u.Type))
+			return codes.InvalidArgument
+		}
+	case *p4.Entity_MeterEntry:
+		m := f.meterByID[x.MeterEntry.MeterId]
+		if m == nil {
+			f.bad("unknown-meter", fmt.Sprint(x.MeterEntry.MeterId))
+			return codes.InvalidArgument
+		}
+		i := x.MeterEntry.GetIndex().GetIndex()
+		if x.MeterEntry.Index == nil || i < 0 || i >= m.Size {
+			f.bad("meter-index", fmt.Sprintf("%s[%d], size %d", fpShort(m.Preamble.Name), i, m.Size))
+			return codes.InvalidArgument
+		}
+		if u.Type != p4.Update_MODIFY {
+			f.bad("meter-update-type", fmt.Sprint(u.Type))
+			return codes.InvalidArgument
+		}
+		cells := f.meters[fpShort(m.Preamble.Name)]
+		if c := x.MeterEntry.Config; c != nil {
+			if c.Cir < 0 || c.Pir < 0 || c.Cburst < 0 || c.Pburst < 0 {
+				f.bad("meter-config-negative", fmt.Sprintf("%s[%d] %v", fpShort(m.Preamble.Name), i, c))
+			}
+			cells[i] = &fpMeterCell{Configured: true, Cir: c.Cir, Cburst: c.Cburst, Pir: c.Pir, Pburst: c.Pburst, Epoch: f.epoch}
+		} else {
+			delete(cells, i)
+		}
+	case *p4.Entity_CounterEntry:
+		c := f.ctrByID[x.CounterEntry.CounterId]
+		if c == nil {
+			f.bad("unknown-counter", fmt.Sprint(x.CounterEntry.CounterId))
+			return codes.InvalidArgument
+		}
+		i := x.CounterEntry.GetIndex().GetIndex()
+		if x.CounterEntry.Index == nil || i < 0 || i >= c.Size {
+			f.bad("counter-index", fmt.Sprintf("%s[%d], size %d", fpShort(c.Preamble.Name), i, c.Size))
+			return codes.InvalidArgument
+		}
+		f.ctrWrites[fpShort(c.Preamble.Name)][i]++
+	default:
+		f.bad("entity-kind", fmt.Sprintf("%T", x))
+		return codes.Unimplemented
+	}
+	return codes.OK
+}
+
+func (f *fakeP4) read(req *p4.ReadRequest) *p4.ReadResponse {
+	f.mu.Lock()
+	defer f.mu.Unlock()
+	resp := &p4.ReadResponse{}
+	for _, ent := range req.Entities {
+		te := ent.GetTableEntry()
+		if te == nil {
+			continue
+		}
+		t := f.tblByID[te.TableId]
+		if t == nil {
+			continue
+		}
+		for _, e := range f.tables[fpShort(t.Preamble.Name)] {
+			resp.Entities = append(resp.Entities, &p4.Entity{Entity: &p4.Entity_TableEntry{TableEntry: f.encode(t, e)}})
+		}
+	}
+	return resp
+}
+
+func fpBytes(v uint64, width int32) []byte {
+	n := int((width + 7) / 8)
+	b := make([]byte, n)
+	for i := n - 1; i >= 0; i-- {
+		b[i] = byte(v)
+		v >>= 8
+	}
+	return b
+}
+
+// encode re-creates the wire form of a stored entry (for Read).
+func (f *fakeP4) encode(t *p4cfg.Table, e *fpEntry) *p4.TableEntry {
+	te := &p4.TableEntry{TableId: t.Preamble.Id, Priority: e.Prio}
+	for _, mf := range t.MatchFields {
+		m, ok := e.Match[mf.Name]
+		if !ok {
+			continue
+		}
+		fm := &p4.FieldMatch{FieldId: mf.Id}
+		switch m.Kind {
+		case "exact":
+			fm.FieldMatchType = &p4.FieldMatch_Exact_{Exact: &p4.FieldMatch_Exact{Value: fpBytes(m.Val, mf.Bitwidth)}}
+		case "lpm":
+			fm.FieldMatchType = &p4.FieldMatch_Lpm{Lpm: &p4.FieldMatch_LPM{Value: fpBytes(m.Val, mf.Bitwidth), PrefixLen: m.Plen}}
+		case "ternary":
+			fm.FieldMatchType = &p4.FieldMatch_Ternary_{Ternary: &p4.FieldMatch_Ternary{Value: fpBytes(m.Val, mf.Bitwidth), Mask: fpBytes(m.Mask, mf.Bitwidth)}}
+		case "range":
+			fm.FieldMatchType = &p4.FieldMatch_Range_{Range: &p4.FieldMatch_Range{Low: fpBytes(m.Val, mf.Bitwidth), High: fpBytes(m.Mask, mf.Bitwidth)}}
+		}
+		te.Match = append(te.Match, fm)
+	}
+	for _, a := range f.info.Actions {
+		if fpShort(a.Preamble.Name) == e.Action {
+			allowed := false
+			for _, r := range t.ActionRefs {
+				if r.Id == a.Preamble.Id {
+					allowed = true
+				}
+			}
+			if !allowed {
+				continue
+			}
+			act := &p4.Action{ActionId: a.Preamble.Id}
+			for _, p := range a.Params {
+				act.Params = append(act.Params, &p4.Action_Param{ParamId: p.Id, Value: fpBytes(e.Params[p.Name], p.Bitwidth)})
+			}
+			te.Action = &p4.TableAction{Type: &p4.TableAction_Action{Action: act}}
+		}
+	}
+	return te
+}
+
+// ------------------------------------------------------------------------------------------------ observation helpers
+
+func (f *fakeP4) list(table string) []*fpEntry {
+	f.mu.Lock()
+	defer f.mu.Unlock()
+	var out []*fpEntry
+	for _, e := range f.tables[table] {
+		out = append(out, e)
+	}
+	sort.Slice(out, func(i, j int) bool { return out[i].key < out[j].key })
+	return out
+}
+
+func (f *fakeP4) meterCells(name string) map[int64]fpMeterCell {
+	f.mu.Lock()
+	defer f.mu.Unlock()
+	out := map[int64]fpMeterCell{}
+	for k, v := range f.meters[name] {
+		out[k] = *v
+	}
+	return out
+}
+
+func (f *fakeP4) takeInvalid() []string {
+	f.mu.Lock()
+	defer f.mu.Unlock()
+	o := f.invalid
+	f.invalid = nil
+	return o
+}
+
+func (f *fakeP4) newEpoch() {
+	f.mu.Lock()
+	f.epoch++
+	f.deadAfter = -1
+	f.faults = map[int]fpFault{}
+	f.mu.Unlock()
+}
+
+var fpSessionTables = []string{"sessions_uplink", "sessions_downlink", "terminations_uplink", "terminations_downlink", "applications", "tunnel_peers", "interfaces"}
+
+// ------------------------------------------------------------------------------------------------ direct client
+
+type fpClient struct {
+	f *fakeP4
+}
+
+func (c *fpClient) Write(ctx context.Context, in *p4.WriteRequest, opts ...grpc.CallOption) (*p4.WriteResponse, error) {
+	if err := c.f.write(in); err != nil {
+		return nil, err
+	}
+	return &p4.WriteResponse{}, nil
+}
+
+type fpReadStream struct {
+	grpc.ClientStream
+	resp *p4.ReadResponse
+	done bool
+}
+
+func (s *fpReadStream) Recv() (*p4.ReadResponse, error) {
+	if s.done {
+		return nil, io.EOF
+	}
+	s.done = true
+	return s.resp, nil
+}
+
+func (c *fpClient) Read(ctx context.Context, in *p4.ReadRequest, opts ...grpc.CallOption) (p4.P4Runtime_ReadClient, error) {
+	return &fpReadStream{resp: c.f.read(in)}, nil
+}
+func (c *fpClient) SetForwardingPipelineConfig(ctx context.Context, in *p4.SetForwardingPipelineConfigRequest, opts ...grpc.CallOption) (*p4.SetForwardingPipelineConfigResponse, error) {
+	return &p4.SetForwardingPipelineConfigResponse{}, nil
+}
+func (c *fpClient) GetForwardingPipelineConfig(ctx context.Context, in *p4.GetForwardingPipelineConfigRequest, opts ...grpc.CallOption) (*p4.GetForwardingPipelineConfigResponse, error) {
+	return &p4.GetForwardingPipelineConfigResponse{Config: &p4.ForwardingPipelineConfig{P4Info: c.f.info}}, nil
+}
+func (c *fpClient) StreamChannel(ctx context.Context, opts ...grpc.CallOption) (p4.P4Runtime_StreamChannelClient, error) {
+	return nil, status.Error(codes.Unimplemented, "direct client has no stream")
+}
+func (c *fpClient) Capabilities(ctx context.Context, in *p4.CapabilitiesRequest, opts ...grpc.CallOption) (*p4.CapabilitiesResponse, error) {
+	return &p4.CapabilitiesResponse{P4RuntimeApiVersion: "1.3.0"}, nil
+}
+
+// ------------------------------------------------------------------------------------------------ gRPC front end
+
+type fpServer struct {
+	p4.UnimplementedP4RuntimeServer
+	mu  sync.Mutex
+	cur *fakeP4
+}
+
+func (s *fpServer) get() *fakeP4 { s.mu.Lock(); defer s.mu.Unlock(); return s.cur }
+
+func (s *fpServer) Write(ctx context.Context, in *p4.WriteRequest) (*p4.WriteResponse, error) {
+	f := s.get()
+	if f == nil {
+		return nil, status.Error(codes.Unavailable, "no fake attached")
+	}
+	if err := f.write(in); err != nil {
+		return nil, err
+	}
+	return &p4.WriteResponse{}, nil
+}
+func (s *fpServer) Read(in *p4.ReadRequest, srv p4.P4Runtime_ReadServer) error {
+	f := s.get()
+	if f == nil {
+		return status.Error(codes.Unavailable, "no fake attached")
+	}
+	return srv.Send(f.read(in))
+}
+func (s *fpServer) GetForwardingPipelineConfig(ctx context.Context, in *p4.GetForwardingPipelineConfigRequest) (*p4.GetForwardingPipelineConfigResponse, error) {
+	f := s.get()
+	if f == nil {
+		return nil, status.Error(codes.Unavailable, "no fake attached")
+	}
+	return &p4.GetForwardingPipelineConfigResponse{Config: &p4.ForwardingPipelineConfig{P4Info: f.info}}, nil
+}
+func (s *fpServer) SetForwardingPipelineConfig(ctx context.Context, in *p4.SetForwardingPipelineConfigRequest) (*p4.SetForwardingPipelineConfigResponse, error) {
+	return &p4.SetForwardingPipelineConfigResponse{}, nil
+}
+func (s *fpServer) StreamChannel(srv p4.P4Runtime_StreamChannelServer) error {
+	f := s.get()
+	if f != nil {
+		f.mu.Lock()
+		f.streams = append(f.streams, srv)
+		f.mu.Unlock()
+	}
+	for {
+		m, err := srv.Recv()
+		if err != nil {
+			return nil
+		}
+		switch {
+		case m.GetArbitration() != nil:
+			// the agent's stream reader dereferences Status unconditionally: a reply must carry one
+			srv.Send(&p4.StreamMessageResponse{Update: &p4.StreamMessageResponse_Arbitration{Arbitration: &p4.MasterArbitrationUpdate{
+				DeviceId: m.GetArbitration().DeviceId, ElectionId: m.GetArbitration().ElectionId, Status: &spb.Status{Code: int32(code.Code_OK)}}}})
+		case m.GetPacket() != nil:
+			if f != nil {
+				f.mu.Lock()
+				f.pktOuts = append(f.pktOuts, append([]byte{}, m.GetPacket().Payload...))
+				f.mu.Unlock()
+			}
+		}
+	}
+}
+
+var (
+	fpSrvOnce sync.Once
+	fpSrv     *fpServer
+	fpSrvHost string
+	fpSrvPort string
+)
+
+func fpFrontEnd() (*fpServer, string, string) {
+	fpSrvOnce.Do(func() {
+		lis, err := net.Listen("tcp", "127.0.0.1:0")
+		if err != nil {
+			panic("VERIF-INFRA: " + err.Error())
+		}
+		fpSrv = &fpServer{}
+		g := grpc.NewServer()
+		p4.RegisterP4RuntimeServer(g, fpSrv)
+		go g.Serve(lis)
+		h, p, _ := net.SplitHostPort(lis.Addr().String())
+		fpSrvHost, fpSrvPort = h, p
+	})
+	return fpSrv, fpSrvHost, fpSrvPort
+}
+
+// ------------------------------------------------------------------------------------------------ UP4 environment
+
+type vP4Cfg struct {
+	SliceID     uint8           `json:"slice,omitempty"`
+	DefaultTC   uint8           `json:"deftc"`
+	QFIToTC     map[uint8]uint8 `json:"qfitc,omitempty"`
+	CounterSize int64           `json:"ctrsize,omitempty"`
+	MeterSize   int64           `json:"metersize,omitempty"`
+	UEPool      string          `json:"uepool,omitempty"`
+}
+
+type vP4Env struct {
+	fp  *fakeP4
+	up4 *UP4
+	in  *vInst
+}
+
+const vP4DefaultPool = "16.0.0.0/8"
+
+func p4ConfFor(cfg vCfg, conf *Conf) {
+	pc := cfg.P4Conf
+	if pc == nil {
+		pc = &vP4Cfg{DefaultTC: 3}
+	}
+	conf.P4rtcIface = P4rtcInfo{SliceID: pc.SliceID, AccessIP: vN3Addr + "/32", QFIToTC: pc.QFIToTC, DefaultTC: pc.DefaultTC}
+	if conf.CPIface.UEIPPool == "" {
+		conf.CPIface.UEIPPool = vP4DefaultPool
+		if pc.UEPool != "" {
+			conf.CPIface.UEIPPool = pc.UEPool
+		}
+	}
+}
+
+func newVP4Env(in *vInst, conf *Conf) *vP4Env { return newVP4EnvWith(in, conf, nil) }
+
+// newVP4EnvWith assembles the UP4 plug-in. Fast path: the fields SetUpfInfo sets are set here (SetUpfInfo itself would
+// start keepTryingToConnect, an endless sleeper that leaks one goroutine and one gRPC channel per instance), then the real
+// initialize(true) runs against the direct client. initOnce is consumed beforehand so that listenToDDNs (which spins
+// when the instance is discarded) and the end-marker loop are not started; end markers are read from the channel.
+// Full path (cfg.FullStartup): the real SetUpfInfo + tryConnect over gRPC.
+func newVP4EnvWith(in *vInst, conf *Conf, old *fakeP4) *vP4Env {
+	cfg := in.cfg
+	p4ConfFor(cfg, conf)
+	pc := cfg.P4Conf
+	if pc == nil {
+		pc = &vP4Cfg{DefaultTC: 3}
+	}
+	fp := old
+	if fp == nil {
+		fp = newFakeP4(pc.CounterSize, pc.MeterSize)
+	}
+	e := &vP4Env{fp: fp, in: in}
+	up := &UP4{}
+	in.u.datapath = up
+	e.up4 = up
+	if cfg.FullStartup {
+		srv, host, port := fpFrontEnd()
+		srv.mu.Lock()
+		srv.cur = fp
+		srv.mu.Unlock()
+		conf.P4rtcIface.P4rtcServer, conf.P4rtcIface.P4rtcPort = host, port
+		*p4RtcServerIP, *p4RtcServerPort = "", ""
+		up.initOnce.Do(func() {})
+		if cfg.EndMarker {
+			up.endMarkerChan = make(chan []byte, 1024)
+		}
+		up.SetUpfInfoNoLoop(in.u, conf)
+		if err := up.tryConnect(); err != nil {
+			panic("VERIF-INFRA: UP4 full start-up failed: " + err.Error())
+		}
+		return e
+	}
+	up.SetUpfInfoNoLoop(in.u, conf)
+	up.initOnce.Do(func() {})
+	if cfg.EndMarker {
+		up.endMarkerChan = make(chan []byte, 1024)
+	}
+	_, _, ready := fbFrontEnd()
+	up.p4client = &P4rtClient{client: &fpClient{fp}, conn: ready, deviceID: 1, digests: make(chan *p4.DigestList, 1024), P4Info: fp.info}
+	up.p4RtTranslator = newP4RtTranslator(fp.info)
+	if !cfg.Down {
+		if err := up.initialize(true); err != nil {
+			panic("VERIF-INFRA: UP4 initialize failed: " + err.Error())
+		}
+		up.setConnectedStatus(true)
+	}
+	return e
+}
+
+// SetUpfInfoNoLoop mirrors UP4.SetUpfInfo without `go up4.keepTryingToConnect()`.
+func (up4 *UP4) SetUpfInfoNoLoop(u *upf, conf *Conf) {
+	up4.conf = conf.P4rtcIface
+	up4.accessIP = MustParseStrIP(conf.P4rtcIface.AccessIP)
+	u.accessIP = up4.accessIP.IP
+	up4.ueIPPool = MustParseStrIP(conf.CPIface.UEIPPool)
+	up4.reportNotifyChan = u.reportNotifyChan
+	u.coreIP = net.ParseIP(net.IPv4zero.String())
+	up4.host = conf.P4rtcIface.P4rtcServer + ":" + conf.P4rtcIface.P4rtcPort
+	up4.deviceID = 1
+	up4.timeout = 30
+	up4.enableEndMarker = conf.EnableEndMarker
+	up4.initTunnelPeerIDs()
+	up4.initApplicationIDs()
+	up4.meters = make(map[meterID]meter)
+	up4.ueAddrToFSEID = make(map[uint32]uint64)
+	up4.fseidToUEAddr = make(map[uint64]uint32)
+	up4.counters = make([]counter, 2)
+}
+
+func (e *vP4Env) close() {
+	if e.in.cfg.FullStartup && e.up4.p4client != nil && e.up4.p4client.conn != nil {
+		if e.up4.p4client.stream != nil {
+			e.up4.p4client.stream.CloseSend()
+		}
+		e.up4.p4client.conn.Close()
+	}
+}
+
+func (e *vP4Env) nwrites() int {
+	e.fp.mu.Lock()
+	defer e.fp.mu.Unlock()
+	return e.fp.nwrite
+}
+
+func (e *vP4Env) takePacketOuts() [][]byte {
+	var out [][]byte
+	if e.up4.endMarkerChan != nil {
+		for {
+			select {
+			case b := <-e.up4.endMarkerChan:
+				out = append(out, append([]byte{}, b...))
+				continue
+			default:
+			}
+			break
+		}
+	}
+	e.fp.mu.Lock()
+	out = append(out, e.fp.pktOuts...)
+	e.fp.pktOuts = nil
+	e.fp.mu.Unlock()
+	return out
+}
+
+// pools is the in-package view of the five ID pools and the bookkeeping maps.
+type up4Pools struct {
+	Counters, AppMeters, SessMeters []uint64
+	Peers, Apps                     []uint64
+	Meters                          int
+	UEMap, FSEIDMap                 int
+	PeerRefs, AppRefs               []int
+}
+
+func setToSlice(s set.Set) []uint64 {
+	var out []uint64
+	if s == nil {
+		return out
+	}
+	for _, v := range s.ToSlice() {
+		switch x := v.(type) {
+		case uint64:
+			out = append(out, x)
+		case uint32:
+			out = append(out, uint64(x))
+		}
+	}
+	sort.Slice(out, func(i, j int) bool { return out[i] < out[j] })
+	return out
+}
+
+func (e *vP4Env) pools() up4Pools {
+	u := e.up4
+	p := up4Pools{Meters: len(u.meters), UEMap: len(u.ueAddrToFSEID), FSEIDMap: len(u.fseidToUEAddr)}
+	if len(u.counters) > 0 {
+		p.Counters = setToSlice(u.counters[preQosCounterID].counterIDsPool)
+	}
+	p.AppMeters, p.SessMeters = setToSlice(u.appMeterCellIDsPool), setToSlice(u.sessMeterCellIDsPool)
+	for _, v := range u.tunnelPeerIDsPool {
+		p.Peers = append(p.Peers, uint64(v))
+	}
+	for _, v := range u.applicationIDsPool {
+		p.Apps = append(p.Apps, uint64(v))
+	}
+	for _, t := range u.tunnelPeerIDs {
+		p.PeerRefs = append(p.PeerRefs, t.usedBy.Cardinality())
+	}
+	for _, a := range u.applicationIDs {
+		p.AppRefs = append(p.AppRefs, a.usedBy.Cardinality())
+	}
+	sort.Ints(p.PeerRefs)
+	sort.Ints(p.AppRefs)
+	return p
+}
+
+// digest renders switch state + plug-in bookkeeping with agent-chosen identifiers renamed (for the state key).
+func (e *vP4Env) digest(rn *vRenamer) string {
+	idmap := map[string]map[uint64]string{"ctr": {}, "am": {}, "sm": {}, "peer": {}, "app": {}}
+	name := func(kind string, v uint64) string {
+		if v == 0 && kind != "ctr" { // 0 = none for meters, peers, applications; a legal index for counters
+			return "0"
+		}
+		m := idmap[kind]
+		if n, ok := m[v]; ok {
+			return n
+		}
+		m[v] = fmt.Sprintf("%s%d", kind, len(m))
+		return m[v]
+	}
+	var lines []string
+	for _, t := range fpSessionTables {
+		es := e.fp.list(t)
+		// order by content that does not depend on renamable identifiers, then rename in that order
+		sort.SliceStable(es, func(i, j int) bool { return e.stableKey(es[i], rn) < e.stableKey(es[j], rn) })
+		for _, x := range es {
+			var ms, ps []string
+			for k, m := range x.Match {
+				v := fmt.Sprintf("%x/%x/%d", m.Val, m.Mask, m.Plen)
+				switch k {
+				case "ue_address":
+					v = rn.U(uint32(m.Val))
+				case "teid":
+					v = rn.T(uint32(m.Val))
+				case "app_id":
+					v = name("app", m.Val)
+				case "tunnel_peer_id":
+					v = name("peer", m.Val)
+				}
+				ms = append(ms, k+"="+v)
+			}
+			for k, v := range x.Params {
+				s := fmt.Sprintf("%x", v)
+				switch k {
+				case "ctr_idx":
+					s = name("ctr", v)
+				case "app_meter_idx":
+					s = name("am", v)
+				case "session_meter_idx":
+					s = name("sm", v)
+				case "tunnel_peer_id":
+					s = name("peer", v)
+				case "app_id":
+					s = name("app", v)
+				case "teid":
+					s = rn.T(uint32(v))
+				}
+				ps = append(ps, k+"="+s)
+			}
+			sort.Strings(ms)
+			sort.Strings(ps)
+			lines = append(lines, fmt.Sprintf("E %s[%s]p%d->%s(%s)", x.Table, strings.Join(ms, ","), x.Prio, x.Action, strings.Join(ps, ",")))
+		}
+	}
+	for _, mn := range []string{"app_meter", "session_meter", "slice_tc_meter"} {
+		cells := e.fp.meterCells(mn)
+		var ks []int64
+		for k := range cells {
+			ks = append(ks, k)
+		}
+		sort.Slice(ks, func(i, j int) bool { return ks[i] < ks[j] })
+		var vals []string
+		for _, k := range ks {
+			c := cells[k]
+			vals = append(vals, fmt.Sprintf("%d/%d/%d/%d", c.Cir, c.Cburst, c.Pir, c.Pburst))
+		}
+		sort.Strings(vals)
+		lines = append(lines, fmt.Sprintf("M %s %v", mn, vals))
+	}
+	p := e.pools()
+	lines = append(lines, fmt.Sprintf("pools ctr=%d am=%d sm=%d peers=%d apps=%d meters=%d uemap=%d/%d peerrefs=%v apprefs=%v conn=%v",
+		len(p.Counters), len(p.AppMeters), len(p.SessMeters), len(p.Peers), len(p.Apps), p.Meters, p.UEMap, p.FSEIDMap, p.PeerRefs, p.AppRefs, e.up4.connected))
+	return strings.Join(lines, "\n") + "\n"
+}
+
+func (e *vP4Env) stableKey(x *fpEntry, rn *vRenamer) string {
+	var ms []string
+	for k, m := range x.Match {
+		switch k {
+		case "app_id", "tunnel_peer_id":
+			continue
+		case "ue_address":
+			ms = append(ms, k+"="+rn.U(uint32(m.Val)))
+		case "teid":
+			ms = append(ms, k+"="+rn.T(uint32(m.Val)))
+		default:
+			ms = append(ms, fmt.Sprintf("%s=%x/%x/%d", k, m.Val, m.Mask, m.Plen))
+		}
+	}
+	sort.Strings(ms)
+	var ps []string
+	for k, v := range x.Params {
+		switch k {
+		case "ctr_idx", "app_meter_idx", "session_meter_idx", "tunnel_peer_id", "app_id":
+			continue
+		case "teid":
+			ps = append(ps, k+"="+rn.T(uint32(v)))
+		default:
+			ps = append(ps, fmt.Sprintf("%s=%x", k, v))
+		}
+	}
+	sort.Strings(ps)
+	return fmt.Sprintf("%s|%s|%d|%s|%s", x.Table, strings.Join(ms, ","), x.Prio, x.Action, strings.Join(ps, ","))
+}
